@@ -581,10 +581,16 @@ class XPathToken(Token[ta.XPathTokenType]):
                     if isinstance(op2, (str, Integer, AbstractQName, AnyURI)):
                         raise TypeError(msg.format(type(op1), type(op2)))
                 case Integer():
-                    if isinstance(op2, (str, AbstractQName, AnyURI, bool)):
+                    if isinstance(op2, float):
+                        yield get_double(op1), op2
+                        continue
+                    elif isinstance(op2, (str, AbstractQName, AnyURI, bool)):
                         raise TypeError(msg.format(type(op1), type(op2)))
                 case float():
-                    if isinstance(op2, decimal.Decimal):
+                    if isinstance(op2, Integer):
+                        yield op1, get_double(op2)
+                        continue
+                    elif isinstance(op2, decimal.Decimal):
                         yield op1, float(op2)
                         continue
                     elif isinstance(op2, (str, AbstractQName, AnyURI, bool)):
